@@ -22,7 +22,7 @@ from ..translator import consts
 LEVEL = "proof"
 PROP_FILES = ["PersimVerif/Props/C13.lean", "PersimVerif/Generated/KernelConsts.lean", py2lean.prop_file("kernels")]
 RULE = ("kernel parameter sets from one PRNG: correlation r from a ladder on both sides of 0.3/0.75/0.925 (exactly at, one ulp "
-        "below/above, +-1e-4), +-, |r| up to 0.99999, 1-1e-5..1-1e-1, 1-1e-15..1-1e-8 and the largest double below 1, and uniform; variances 1e-4..1e4 (decimal and powers of 4), means of either "
+        "below/above, +-1e-4), +-, |r| up to 0.99999, 1-1e-5..1-1e-1, 1-1e-15..1-1e-8 and the largest double below 1, and uniform; variances 1e-4..1e4 (decimal and powers of 4) and 1e-14..1e-6, means of either "
         "sign and scale; evaluation points mu + t*sd with t from {0, +-tiny, uniform +-3, uniform +-12, lines dh=dk / dh=-dk, "
         "hk<-100 corners}; uniform kernel: dyadic boxes/points (exact) and decimal ones; non-trivial = a point strictly inside "
         "the +-12 sd window with r != 0 (gaussian) or strictly inside the box in at least one coordinate (uniform); distinct by "
@@ -220,13 +220,15 @@ def gen_params(ctx, rho=None, allow_unit=True):
     """(mu0, mu1, sxx, syy, sxy, kind)"""
     r = ctx.rng
     rho = gen_r(ctx) if rho is None else rho
-    kind = r.choice(["unit", "pow4", "dec", "dec", "wide"]) if allow_unit else r.choice(["dec", "wide"])
+    kind = r.choice(["unit", "pow4", "dec", "dec", "wide", "tiny"]) if allow_unit else r.choice(["dec", "wide", "tiny"])
     if kind == "unit":
         sxx = syy = 1.0
     elif kind == "pow4":              # sqrt(sxx*syy) exact: r = sxy / 2^k exactly
         sxx = 4.0 ** r.randint(-6, 6); syy = 4.0 ** r.randint(-6, 6)
     elif kind == "dec":
         sxx = round(r.uniform(0.05, 20), 3); syy = round(r.uniform(0.05, 20), 3)
+    elif kind == "tiny":              # diagrams in small units: variances (and so the covariance) far below 1e-8
+        sxx = 10 ** r.uniform(-13, -7); syy = sxx * 10 ** r.uniform(-1, 1)
     else:
         sxx = 10 ** r.uniform(-4, 4); syy = 10 ** r.uniform(-4, 4)
     sxy = rho * math.sqrt(sxx * syy)
@@ -706,7 +708,7 @@ def t_gauss(ctx):
             lowtail = bool(np.all(np.abs(v[:8]) <= SLACK))
             one = abs(v[8] - 1.0) <= SLACK
             marg = special.ndtr(np.array(c + c))
-            okm = bool(np.all(np.abs(v[9:] - marg) <= 1e-9))
+            okm = bool(np.all(np.abs(v[9:] - marg) <= ACC))
             ok = lowtail and one and okm and bool(np.all(np.isfinite(v)))
             ctx.test("tails_0_1_and_marginals", ok)
             if not ok:
@@ -743,7 +745,7 @@ def t_far_tails(ctx):
     from scipy import special
     for rho, x, y, want in FAR_CORPUS:
         v = float(code_gauss([x], [y], 0.0, 0.0, 1.0, 1.0, rho)[0])
-        ok = abs(v - want) <= 1e-9        # NaN -> False
+        ok = abs(v - want) <= ACC        # NaN -> False (the accuracy the property demands)
         ctx.test("far_tails_corpus", ok)
         if not ok:
             ctx.violation("gaussian kernel in the far tail (r=%r): value %r at (%r,%r), the bivariate normal CDF is %r" % (rho, v, x, y, want),
@@ -763,7 +765,7 @@ def t_far_tails(ctx):
         pc = float(special.ndtr(c))
         want = np.array([0, 0, 0, 1, pc, pc, 0, 0, 0, 0], dtype=float)
         with np.errstate(all="ignore"):
-            good = np.abs(v - want) <= 1e-9     # NaN -> False
+            good = np.abs(v - want) <= ACC     # NaN -> False
         ok = bool(np.all(good))
         ctx.test("far_tails", ok)
         if not ok:
@@ -945,7 +947,7 @@ def replay(ctx, rep):
         return -SLACK <= m <= 1 + SLACK
     if law == "far_tail":
         print("expected:", c["expect"])
-        return bool(np.all(np.abs(v - c["expect"]) <= 1e-9))
+        return bool(np.all(np.abs(v - c["expect"]) <= ACC))
     ref = ref_owen(h, k, rho) if abs(rho) < 1 else None
     print("reference:", None if ref is None else ref.tolist())
     if law == "range":
